@@ -129,6 +129,83 @@ def evalExitChain (chain : List (Cond × Nat)) (dflt : Nat) (readErrors : Int) (
     if c.eval readErrors aggNil parseErrors matched then code
     else evalExitChain rest dflt readErrors aggNil parseErrors matched
 
+/-! ### small Go fragments evaluated from the source: `helpers.SortsByValue` and the guard of spark's trim step -/
+
+/-- a Go boolean expression over identifiers (variables, `x == nil`, `x == "lit"`, calls of Bool-valued helpers on
+identifiers); anything else is `other` and has no value -/
+inductive GoB
+  | lit (b : Bool)
+  | var (v : String)
+  | isNil (v : String)
+  | notNil (v : String)
+  | strEq (v lit : String)
+  | strNe (v lit : String)
+  | call (f : String) (args : List String)
+  | not (a : GoB)
+  | and (a b : GoB)
+  | or (a b : GoB)
+  | other (src : String)
+  deriving DecidableEq, Repr
+
+/-- what the identifiers of a `GoB` stand for -/
+structure GoEnv where
+  bools : String → Option Bool := fun _ => none
+  /-- string variables, as bytes -/
+  strs : String → Option Bytes := fun _ => none
+  /-- `true` = the (error) variable is nil -/
+  nils : String → Option Bool := fun _ => none
+  calls : String → List String → Option Bool := fun _ _ => none
+
+def GoB.eval (env : GoEnv) : GoB → Option Bool
+  | .lit b => some b
+  | .var v => env.bools v
+  | .isNil v => env.nils v
+  | .notNil v => (env.nils v).map (!·)
+  | .strEq v l => (env.strs v).map (· == asc l)
+  | .strNe v l => (env.strs v).map (· != asc l)
+  | .call f args => env.calls f args
+  | .not a => (a.eval env).map (!·)
+  | .and a b => match a.eval env, b.eval env with
+    | some x, some y => some (x && y)
+    | _, _ => none
+  | .or a b => match a.eval env, b.eval env with
+    | some x, some y => some (x || y)
+    | _, _ => none
+  | .other _ => none
+
+/-- a function of one string parameter whose body is `lhs… := callee(args…)` followed by `return ret`
+(`helpers.SortsByValue`); arguments are identifiers or literals as the source spells them -/
+structure SbvSrc where
+  param : String
+  lhs : List String
+  callee : String
+  args : List String
+  ret : GoB
+  deriving DecidableEq, Repr
+
+/-- the bytes before the first `:` (`strings.Cut(s, ":")`, first result) -/
+def cutColon (s : Bytes) : Bytes := s.takeWhile (· != 58)
+
+/-- Run such a function on `fullName`.  Known callees: `parseSort(param)` – three results `(name, reverse, err)`, on an
+error Go hands back `"", false, err` – with `parse` standing for it, and `strings.Cut(param, ":")` – `(before, after,
+found)`.  The result is Bool-valued whenever `ret` only looks at the name (first result) and the error (third). -/
+def SbvSrc.eval (parse : Bytes → Except C13.SortErr (Bytes × Bool)) (s : SbvSrc) (fullName : Bytes) : Option Bool :=
+  match s.lhs with
+  | [n, r, e] =>
+    if s.callee = "parseSort" ∧ s.args = [s.param] then
+      let res := parse fullName
+      let name : Bytes := match res with | .ok (nm, _) => nm | .error _ => []
+      let rev : Bool := match res with | .ok (_, rv) => rv | .error _ => false
+      let isNil : Bool := match res with | .ok _ => true | .error _ => false
+      s.ret.eval { strs := fun v => if v ≠ "_" ∧ v = n then some name else none,
+                   bools := fun v => if v ≠ "_" ∧ v = r then some rev else none,
+                   nils := fun v => if v ≠ "_" ∧ v = e then some isNil else none }
+    else if s.callee = "strings.Cut" ∧ s.args = [s.param, "\":\""] then
+      s.ret.eval { strs := fun v => if v ≠ "_" ∧ v = n then some (cutColon fullName) else none,
+                   bools := fun v => if v ≠ "_" ∧ v = e then some (fullName.contains 58) else none }
+    else none
+  | _ => none
+
 /-! ### the CSV row builders with the comparator as a parameter -/
 
 def counterRowsBy (less : NV → NV → Bool) (srt : SortFn) (order : List Bytes) (count : Bytes → Int) : List (List Bytes) :=
